@@ -56,11 +56,20 @@ OPS = {
     "ptSub": ("auto r = p1 - p2; (void)r;", None), "ptEq": ("bool r = (p1 == p2); (void)r;", None), "ptLt": ("bool r = (p1 < p2); (void)r;", None),
     "ptImplicitCtor": ("P1 x = p2; (void)x;", None), "ptAs": ("auto r = p2.as(U1{}); (void)r;", None),
     "ptPlusQuantity": ("auto r = p1 + q2; (void)r;", None), "ptMinusQuantity": ("auto r = p1 - q2; (void)r;", None),
+    "floorIn": ("auto r = au::floor_in(U1{}, q2); (void)r;", None), "ceilIn": ("auto r = au::ceil_in(U1{}, q2); (void)r;", None),
+    "roundAsRep": ("auto r = au::round_as<int>(U1{}, q2); (void)r;", None),
+    "coerceAsRep": ("auto r = q2.coerce_as<R1>(U1{}); (void)r;", None), "coerceInRep": ("auto r = q2.coerce_in<R1>(U1{}); (void)r;", None),
+    "ptNe": ("bool r = (p1 != p2); (void)r;", None), "ptLe": ("bool r = (p1 <= p2); (void)r;", None),
+    "ptGt": ("bool r = (p1 > p2); (void)r;", None), "ptGe": ("bool r = (p1 >= p2); (void)r;", None),
+    "ptExplicitCtor": ("P1 x(p2); (void)x;", None), "ptAssign": ("p1 = p2;", None), "ptIn": ("auto r = p2.in(U1{}); (void)r;", None),
+    "ptCoerceAs": ("auto r = p2.coerce_as(U1{}); (void)r;", None), "ptCoerceIn": ("auto r = p2.coerce_in(U1{}); (void)r;", None),
+    "ptPlusAssign": ("p1 += q2;", None), "ptMinusAssign": ("p1 -= q2;", None), "quantityPlusPt": ("auto r = q1 + p2; (void)r;", None),
 }
 TRAITS = {
     "commonType": "HasCommon<Q1, Q2>::value", "isConvertible": "std::is_convertible<Q2, Q1>::value",
     "isConstructible": "std::is_constructible<Q1, Q2>::value",
     "ptIsConvertible": "std::is_convertible<P2, P1>::value",
+    "ptIsConstructible": "std::is_constructible<P1, P2>::value", "ptCommonType": "HasCommon<P1, P2>::value",
 }
 ALLOW = ["Can only compute ratio of same-dimension units", "Common unit only meaningful if units have same dimension",
          "Common dimension only defined when all dimensions are identical", "Can only convert same-dimension units",
@@ -99,8 +108,8 @@ def main(tier, seed):
         if r < 0.5:
             return ("atom", rng.choice(pool))
         return uexpr.gen_tree(rng, A, 2, pool)
-    n_neg = 170 if tier == "quick" else 2200
-    n_pos = 70 if tier == "quick" else 600
+    n_neg = 240 if tier == "quick" else 3000
+    n_pos = 100 if tier == "quick" else 800
     neg_cases, pos_cases, trait_cases = [], [], []
     near = [(("atom", "Meters"), ("pow", ("atom", "Meters"), 2)), (("atom", "Hertz"), ("div", ("atom", "Radians"), ("atom", "Seconds"))),
             (("atom", "Seconds"), ("pow", ("atom", "Seconds"), -1)), (("atom", "Joules"), ("atom", "Newtons")),
